@@ -68,6 +68,26 @@ def gen_election(rng, family=None, maxc=7, maxb=9):
     return dict(n=n, s=s, wd=wds, und=[], tie=tie, lines=lines, eq=[], names=['c%d' % i for i in range(1, n + 1)],
                 family=family)
 
+def gen_writein_election(rng):
+    """Minneapolis: nobody at threshold in round 1 (so round 2 is reached), write-ins with little support"""
+    n = rng.randint(4, 7)
+    s = rng.randint(1, 2)
+    nund = rng.randint(1, 2)
+    und = list(range(n - nund + 1, n + 1))
+    declared = list(range(1, n - nund + 1))
+    lines = []
+    base = rng.randint(3, 9)
+    for c in declared:
+        others = [x for x in range(1, n + 1) if x != c]
+        rng.shuffle(others)
+        lines.append((base + rng.randint(0, 3), [c] + others[:rng.randint(0, len(others))]))
+    for u in und:
+        lines.append((rng.choice([0, 1, 1, 2]) or 1, [u] + rng.sample(declared, rng.randint(0, 2))))
+    for _ in range(rng.randint(0, 3)):
+        lines.append((1, rng.sample(range(1, n + 1), rng.randint(1, n))))
+    tie = list(range(1, n + 1)); rng.shuffle(tie)
+    return dict(n=n, s=s, wd=[], und=und, tie=tie, lines=lines, eq=[], names=['c%d' % i for i in range(1, n + 1)], family='writein')
+
 def add_undeclared(rng, e):
     elig = [c for c in range(1, e['n'] + 1) if c not in e['wd']]
     e['und'] = [c for c in elig if rng.random() < 0.25]
